@@ -60,35 +60,57 @@ def pair_programs(draw):
         rd = draw(st.integers(1, 31))
         r2 = draw(st.integers(0, 31))
         pairs.append((kind, e, rd, r2))
-    # layout: pairs and labels interleaved with even gaps so that label offsets reach interesting magnitudes
-    units = [[('pair', p)] for p in pairs]
-    for L in labels:
-        gap = draw(st.sampled_from([0, 2, 0x7f0, 0x7fc, 0x800, 0x804, 0xff8, 0x1000, 0x17fc, 0x1800]))
-        gap += 2 * draw(st.integers(0, 8))
-        u = ([('gap', gap)] if gap else []) + [('label', L)]
-        units.insert(draw(st.integers(0, len(units))), u)
+    # layout, built front to back while tracking the PESSIMISTIC offset (the one early passes decide on): shrinking
+    # items (li of a small value, compressible instructions, an align) first, then labels placed so that their
+    # pessimistic offset sits on / next to a 2 KiB or 4 KiB boundary - the label then moves down when the items shrink
     items = list(consts)
     meta = []
-    for u in units:
-        for tag, x in u:
-            if tag == 'gap':
-                items.append(ir.Gap(x))
-            elif tag == 'label':
-                items.append(ir.Label(x))
-            else:
-                kind, e, rd, r2 = x
-                first = 'lui' if kind.startswith('lui') else 'auipc'
-                i0 = len(items)
-                items.append(ir.Insn(first, {'rd': ir.Reg(rd), 'imm': ir.Hi(e)}))
-                if kind.endswith('addi'):
-                    items.append(ir.Insn('addi', {'rd': ir.Reg(rd), 'rs1': ir.Reg(rd), 'imm': ir.Lo(e)}))
-                elif kind.endswith('lw'):
-                    items.append(ir.Insn('lw', {'rd': ir.Reg(r2), 'rs1': ir.Reg(rd), 'imm': ir.Lo(e)}))
-                elif kind.endswith('sw'):
-                    items.append(ir.Insn('sw', {'rs1': ir.Reg(rd), 'rs2': ir.Reg(r2), 'imm': ir.Lo(e)}))
-                else:
-                    items.append(ir.Insn('jalr', {'rd': ir.Reg(r2), 'rs1': ir.Reg(rd), 'imm': ir.Lo(e)}))
-                meta.append((i0, kind, e))
+    pess = 0
+    nshrink = draw(st.integers(0, 3))
+    for _ in range(nshrink):
+        k = draw(st.integers(0, 2))
+        if k == 0:
+            items.append(ir.Pseudo('li', [ir.Reg(draw(st.integers(5, 15))), ir.Lit(draw(st.integers(-100, 100)))]))
+            pess += 8
+        elif k == 1:
+            items.append(ir.Insn('addi', {'rd': ir.Reg(9), 'rs1': ir.Reg(9), 'imm': ir.Lit(1)}))
+            pess += 4
+        else:
+            items += [ir.Seq('shorts', [1]), ir.Align(4)]
+            pess += 6
+
+    def emit_pair(p):
+        nonlocal pess
+        kind, e, rd, r2 = p
+        first = 'lui' if kind.startswith('lui') else 'auipc'
+        i0 = len(items)
+        items.append(ir.Insn(first, {'rd': ir.Reg(rd), 'imm': ir.Hi(e)}))
+        if kind.endswith('addi'):
+            items.append(ir.Insn('addi', {'rd': ir.Reg(rd), 'rs1': ir.Reg(rd), 'imm': ir.Lo(e)}))
+        elif kind.endswith('lw'):
+            items.append(ir.Insn('lw', {'rd': ir.Reg(r2), 'rs1': ir.Reg(rd), 'imm': ir.Lo(e)}))
+        elif kind.endswith('sw'):
+            items.append(ir.Insn('sw', {'rs1': ir.Reg(rd), 'rs2': ir.Reg(r2), 'imm': ir.Lo(e)}))
+        else:
+            items.append(ir.Insn('jalr', {'rd': ir.Reg(r2), 'rs1': ir.Reg(rd), 'imm': ir.Lo(e)}))
+        meta.append((i0, kind, e))
+        pess += 8
+
+    todo = list(pairs)
+    for L in labels:
+        while todo and draw(st.integers(0, 2)) == 0:
+            emit_pair(todo.pop())
+        target = draw(st.sampled_from([0x800, 0x1000, 0x1800, 0x2000, 0x3000, 0x7f8, 0xff8])) + draw(st.sampled_from([0, 0, 0, 2, -2, 4, -4, 8]))
+        if draw(st.integers(0, 3)) == 0:
+            target = pess + 2 * draw(st.integers(0, 40))
+        gap = target - pess
+        if gap > 0:
+            gap -= gap % 2
+            items.append(ir.Gap(gap))
+            pess += gap
+        items.append(ir.Label(L))
+    for p in todo:
+        emit_pair(p)
     prog = S.Program(items, ['pairs'], True)
     prog.meta = meta
     return prog
